@@ -6,6 +6,7 @@ import (
 	"bufio"
 	"fmt"
 	"io"
+	"os"
 	"os/exec"
 	"strconv"
 	"strings"
@@ -62,6 +63,11 @@ func NewSolver(name string, timeoutMs int) (*Solver, error) {
 	}
 	s := &Solver{name: name, cmd: cmd, in: in, out: bufio.NewReaderSize(outp, 1<<16),
 		timeout: time.Duration(timeoutMs) * time.Millisecond}
+	if p := os.Getenv("VP_SMTLOG"); p != "" {
+		if f, err := os.OpenFile(fmt.Sprintf("%s.%d", p, cmd.Process.Pid), os.O_CREATE|os.O_WRONLY|os.O_TRUNC, 0o644); err == nil {
+			s.log = f
+		}
+	}
 	s.Reset()
 	return s, nil
 }
